@@ -159,15 +159,36 @@ def _norm(s):
     return re.sub(r'\s+', ' ', s.strip())
 
 
-def find_nth(hay_masked, hay, needle, k, what):
-    """Span of the k-th (1-based) whitespace-insensitive occurrence of needle in hay."""
+def find_nth(hay_masked, hay, needle, k, what, fuzzy=False):
+    """Span of the k-th (1-based) whitespace-insensitive occurrence of needle in hay.
+    fuzzy (proof hints only): if the exact statement is gone (it was edited), fall back to the statement
+    that starts with the same first tokens (>= 3) -- a hint is proof guidance, its position cannot make an
+    unsound proof, and the edited statement is exactly where the verifier should now be looking."""
     toks = [re.escape(t) for t in re.findall(r'[A-Za-z0-9_]+|\S', needle)]
     # allow arbitrary whitespace between tokens
     pat = r'\s*'.join(toks)
     ms = [m for m in re.finditer(pat, hay)]
-    if len(ms) < k:
-        raise LostAnchor(f'{what}: anchor `{needle}` occurrence {k} not found ({len(ms)} present)')
-    return ms[k - 1].start(), ms[k - 1].end(), len(ms)
+    if len(ms) >= k:
+        return ms[k - 1].start(), ms[k - 1].end(), len(ms)
+    if fuzzy:
+        for n in range(len(toks) - 1, 2, -1):
+            ms = [m for m in re.finditer(r'\s*'.join(toks[:n]), hay)]
+            if len(ms) >= k:
+                s0 = ms[k - 1].start()
+                # extend to the end of the statement (next ';' or '{' at the same nesting level)
+                depth, e = 0, ms[k - 1].end()
+                while e < len(hay):
+                    c = hay[e]
+                    if c in '([':
+                        depth += 1
+                    elif c in ')]':
+                        depth -= 1
+                    elif c in ';{' and depth <= 0:
+                        e += 1
+                        break
+                    e += 1
+                return s0, e, len(ms)
+    raise LostAnchor(f'{what}: anchor `{needle}` occurrence {k} not found ({len(ms)} present)')
 
 
 def loop_header_positions(masked_body):
@@ -270,7 +291,7 @@ def build_fn(em, src, span, qual, subs, retname='r', declared_only=False):
         m = re.match(r'(before|after)\s+(\d+)\s+(.*)$', d.arg, re.S)
         if not m:
             raise SystemExit(f'bad @@hint at line {d.lineno}')
-        s, e, _ = find_nth(mbody, body, m.group(3), int(m.group(2)), qual)
+        s, e, _ = find_nth(mbody, body, m.group(3), int(m.group(2)), qual, fuzzy=True)
         pos = s if m.group(1) == 'before' else e
         splices.append((pos, '\n' + '\n'.join(d.payload).rstrip('\n') + '\n'))
     for pos, t in sorted(splices, key=lambda x: -x[0]):
